@@ -110,7 +110,8 @@ def check_single(r, case):
         if not plan:
             continue
         lines = [line(s) for s in plan]
-        tr = guard(lambda: TrajectoryExporter(w.D).parse_plan(w.P, action_sequence=list(lines)))
+        exp = w.__dict__.setdefault("_c10_exporter", TrajectoryExporter(w.D))  # one long-lived exporter per domain
+        tr = guard(lambda: exp.parse_plan(w.P, action_sequence=list(lines)))
         if isinstance(tr, Raised):
             r.outcome("skip-plan-raised (C04's business)")
             continue
@@ -175,7 +176,7 @@ def check_joint(r, case):
             plans.append(([j1, j2], [w.init, s1, s2]))
     for joint_plan, ref_states in plans:
         lines = [render(j) for j in joint_plan]
-        exp = MultiAgentTrajectoryExporter(w.D)
+        exp = w.__dict__.setdefault("_c10_ma_exporter", MultiAgentTrajectoryExporter(w.D))  # long-lived
         tr = guard(lambda: exp.parse_plan(w.P, action_sequence=list(lines)))
         if isinstance(tr, Raised):
             r.outcome("skip-joint-plan-raised (C16's business)")
